@@ -5,6 +5,7 @@ import (
 	"sort"
 	"strings"
 	"sync"
+	"sync/atomic"
 	"time"
 	"unicode/utf8"
 
@@ -21,6 +22,10 @@ import (
 //   K key rune mod (InjectKey) | M x y buttons mod (InjectMouse) | B hex dectable (InjectKeyBytes → b:0|1)
 //   R r hex | U r (Register/UnregisterRuneFallback) | Q r flag (CanDisplay → q:0|1)
 //   G (observe GetContents + GetCursor) | P (observe the events polled so far) | T (observe Size())
+//   A … E   burst bracket: the K / M / B ops between A and E (and a Z, which ends the bracket) are injected back to back by one
+//           goroutine while NOBODY polls (the application is busy); polling resumes when the injector has finished or has
+//           been standing still for a few ms (an injection that waits for room in the event queue), then everything
+//           injected must come out, in order, exactly as injected.  For the model A and E are no-ops.
 // reply: observations in order, then "H <GetContents/GetCursor> ev=<remaining events>".
 // The enc table and the dec tables carry what the charset's encoder/decoder report when called directly (they are the
 // function values the Lean model is evaluated with); the letters (five, or six: the sixth is the Fill variant, see fillZWSuffix in cb.go) say on which side of the known defect sites
@@ -46,6 +51,7 @@ type simShadowCell struct {
 type simRun struct {
 	scr      tcell.SimulationScreen
 	cd       *codec
+	gate     sync.Mutex // held while a burst is injected: the poller does not start another PollEvent
 	mu       sync.Mutex
 	events   []tcell.Event
 	syncCh   chan int
@@ -76,6 +82,8 @@ type simSentinel struct{ n int }
 
 func (s *simRun) poller() {
 	for {
+		s.gate.Lock()
+		s.gate.Unlock()
 		ev := s.scr.PollEvent()
 		if ev == nil {
 			return
@@ -101,6 +109,90 @@ func (s *simRun) syncEvents() {
 	case <-time.After(3 * time.Second):
 		s.finding("poll-timeout", "sentinel event not delivered within 3s")
 	}
+}
+
+// ---- bursts (ops A … E)
+
+type simBurst struct {
+	acts    []func()
+	want    []string // expected key / mouse events in order; "k*" = some key event (documented normalisation: no verdict on its fields)
+	unknown bool     // an injection whose outcome the statement does not fix (malformed bytes): order and count are not judged
+	desc    []string
+}
+
+// runBurst injects everything of the burst from one goroutine while the poller is held, then lets the poller go and compares
+// what PollEvent delivered with what was injected (resize events are judged by the SetSize bookkeeping, not here).
+func (s *simRun) runBurst(b *simBurst) {
+	if len(b.acts) == 0 {
+		return
+	}
+	from := s.nEvents() // everything earlier has been polled: the queue is empty
+	s.tags["burst"] = true
+	if len(b.want) > 10 {
+		s.tags["burst>10"] = true
+	}
+	s.gate.Lock()
+	var progress int32
+	started, done := make(chan struct{}), make(chan struct{})
+	go func() {
+		defer close(done)
+		close(started)
+		for _, a := range b.acts {
+			a()
+			atomic.AddInt32(&progress, 1)
+		}
+	}()
+	select {
+	case <-started:
+	case <-time.After(time.Second):
+	}
+	// wait until the injector is through, or stands still (it waits for room in the queue: back-pressure, not loss)
+	last, lastT := int32(-1), time.Now()
+wait:
+	for {
+		select {
+		case <-done:
+			break wait
+		case <-time.After(300 * time.Microsecond):
+		}
+		if p := atomic.LoadInt32(&progress); p != last {
+			last, lastT = p, time.Now()
+		} else if time.Since(lastT) > 4*time.Millisecond {
+			s.tags["burst-backpressure"] = true
+			break wait
+		}
+	}
+	s.gate.Unlock()
+	select {
+	case <-done:
+	case <-time.After(3 * time.Second):
+		s.finding("inject-blocks", "a burst of %d injections (%s) did not finish within 3 s although PollEvent is being called", len(b.acts), strings.Join(b.desc, " "))
+		return
+	}
+	var evs []string
+	for _, e := range s.eventsFrom(from) {
+		if !strings.HasPrefix(e, "r") {
+			evs = append(evs, e)
+		}
+	}
+	if b.unknown {
+		s.tags["burst-unjudged"] = true
+		return
+	}
+	same := len(evs) == len(b.want)
+	for i := 0; same && i < len(evs); i++ {
+		if b.want[i] != evs[i] && !(b.want[i] == "k*" && strings.HasPrefix(evs[i], "k")) {
+			same = false
+		}
+	}
+	if same {
+		return
+	}
+	cls := "inject-burst"
+	if len(evs) < len(b.want) {
+		cls = "inject-burst-lost"
+	}
+	s.finding(cls, "injected without polling in between: %s; then polled: %d event(s) %v came out, expected the %d injected ones in order %v", strings.Join(b.desc, " "), len(evs), evs, len(b.want), b.want)
 }
 
 func showSimEv(ev tcell.Event) string {
@@ -337,10 +429,28 @@ func execSim(line string) h.Result {
 	pendingResize := ""   // "WxH" a SetSize asked for and no resize event has confirmed yet
 	pendingFrom := 0      // event index from which to look for it
 	cursorSet, cursorValid := [2]int{-1, -1}, true
+	var burst *simBurst
+	flushBurst := func() {
+		if burst != nil {
+			b := burst
+			burst = nil
+			s.runBurst(b)
+		}
+	}
 	for i, op := range ops[1:] {
 		s.opIdx = i
 		f := strings.Fields(op)
+		if len(f) == 0 {
+			continue
+		}
+		if burst != nil && !(f[0] == "K" || f[0] == "M" || f[0] == "B" || f[0] == "Z") {
+			flushBurst() // E, or any other op: the bracket ends here
+		}
 		switch {
+		case f[0] == "A" && len(f) == 1:
+			burst = &simBurst{}
+		case f[0] == "E" && len(f) == 1:
+			// (flushed above)
 		case f[0] == "S" && len(f) == 6:
 			x, y, m, comb, st := h.Atoi(f[1]), h.Atoi(f[2]), rune(h.Atoi(f[3])), toRunes(h.IntList(f[4])), ParseStyleF(f[5])
 			scr.SetContent(x, y, m, comb, st.ToStyle())
@@ -456,7 +566,14 @@ func execSim(line string) h.Result {
 			}
 			olw, olh := scr.Size()
 			from := s.nEvents()
-			scr.SetSize(w, hh)
+			if burst != nil { // the SetSize is the last injection of the burst
+				burst.acts = append(burst.acts, func() { scr.SetSize(w, hh) })
+				burst.desc = append(burst.desc, fmt.Sprintf("SetSize(%d,%d)", w, hh))
+				s.tags["burst-setsize"] = true
+				flushBurst()
+			} else {
+				scr.SetSize(w, hh)
+			}
 			if w != olw || hh != olh {
 				s.locked = map[[2]int]bool{} // CellBuffer.Resize makes new cells: no lock survives
 			}
@@ -501,6 +618,17 @@ func execSim(line string) h.Result {
 			res.Nontrivial = true
 		case f[0] == "K" && len(f) == 4:
 			k, r, m := h.Atoi(f[1]), rune(h.Atoi(f[2])), h.Atoi(f[3])
+			if burst != nil {
+				burst.acts = append(burst.acts, func() { scr.InjectKey(tcell.Key(k), r, tcell.ModMask(m)) })
+				burst.desc = append(burst.desc, fmt.Sprintf("InjectKey(%d,%d,%d)", k, r, m))
+				if k == int(tcell.KeyRune) && (r < ' ' || r == 0x7f) {
+					burst.want = append(burst.want, "k*")
+				} else {
+					burst.want = append(burst.want, fmt.Sprintf("k%d/%d/%d", k, int(r), m))
+				}
+				s.tags["key"] = true
+				continue
+			}
 			from := s.nEvents()
 			scr.InjectKey(tcell.Key(k), r, tcell.ModMask(m))
 			evs := s.eventsFrom(from)
@@ -513,6 +641,13 @@ func execSim(line string) h.Result {
 			s.tags["key"] = true
 		case f[0] == "M" && len(f) == 5:
 			x, y, b, m := h.Atoi(f[1]), h.Atoi(f[2]), h.Atoi(f[3]), h.Atoi(f[4])
+			if burst != nil {
+				burst.acts = append(burst.acts, func() { scr.InjectMouse(x, y, tcell.ButtonMask(b), tcell.ModMask(m)) })
+				burst.desc = append(burst.desc, fmt.Sprintf("InjectMouse(%d,%d,%d,%d)", x, y, b, m))
+				burst.want = append(burst.want, fmt.Sprintf("m%d/%d/%d/%d", x, y, b, m))
+				s.tags["mouse"] = true
+				continue
+			}
 			from := s.nEvents()
 			scr.InjectMouse(x, y, tcell.ButtonMask(b), tcell.ModMask(m))
 			evs := s.eventsFrom(from)
@@ -522,6 +657,26 @@ func execSim(line string) h.Result {
 			s.tags["mouse"] = true
 		case f[0] == "B" && len(f) == 3:
 			b := h.Unhex(f[1])
+			if burst != nil {
+				want, valid := s.bytesWant(b)
+				bu := burst
+				if !valid {
+					bu.unknown = true
+				}
+				bu.want = append(bu.want, want...)
+				bu.desc = append(bu.desc, fmt.Sprintf("InjectKeyBytes(%x)", b))
+				slot := len(obs)
+				obs = append(obs, "b:?")
+				bu.acts = append(bu.acts, func() {
+					ok := scr.InjectKeyBytes(b)
+					obs[slot] = "b:" + b01(ok)
+					if valid && !ok {
+						s.finding("inject-bytes", "InjectKeyBytes(%x), valid text in %s, returned false", b, s.scr.CharacterSet())
+					}
+				})
+				res.Nontrivial = true
+				continue
+			}
 			from := s.nEvents()
 			ok := scr.InjectKeyBytes(b)
 			evs := s.eventsFrom(from)
@@ -569,6 +724,7 @@ func execSim(line string) h.Result {
 			obs = append(obs, "bad-op")
 		}
 	}
+	flushBurst()
 	evs := s.eventsFrom(s.polled)
 	es := "-"
 	if len(evs) > 0 {
@@ -597,6 +753,27 @@ func (s *simRun) checkCursor(after string, set [2]int) {
 	if x != set[0] || y != set[1] || vis != wantVis {
 		s.finding("sim-cursor", "after %s: GetCursor()=(%d,%d,%v), ShowCursor(%d,%d) on a %dx%d display expects visible=%v", after, x, y, vis, set[0], set[1], pw, ph, wantVis)
 	}
+}
+
+// bytesWant: the key events valid text stands for (valid as in judgeBytes); ok=false when the bytes are not valid text
+func (s *simRun) bytesWant(b []byte) (want []string, ok bool) {
+	str, valid := s.cd.decodeAll(b)
+	if !valid || !utf8.ValidString(str) {
+		return nil, false
+	}
+	var re []byte
+	for _, r := range str {
+		if r < ' ' || r == 0x7f || r == utf8.RuneError {
+			return nil, false
+		}
+		out, rep := s.cd.representable(r)
+		if !rep {
+			return nil, false
+		}
+		re = append(re, out...)
+		want = append(want, fmt.Sprintf("k%d/%d/0", int(tcell.KeyRune), int(r)))
+	}
+	return want, string(re) == string(b)
 }
 
 // judgeBytes: when the injected bytes are valid text in the charset (each character ≥ U+0020, not DEL, re-encodes to
@@ -924,8 +1101,93 @@ func genSim(g *h.Gen) {
 		g.Emit("sim cfg %s %s %s; %s", v, cs, strings.Join(tbl, ","), strings.Join(ops, "; "))
 	}
 	genSimDirected(g, v)
+	genSimBursts(g, v)
 	// codec laws behind inject_bytes_text, validated exhaustively in the thorough tier: see genCodecLaws
 	genCodecLaws(g, v)
+}
+
+// genSimBursts: more injections than the event queue holds (11..40 keys / mouse events / characters of one InjectKeyBytes / a
+// SetSize behind ten pending events) made while the application does not poll; it polls afterwards.  From the statement:
+// "injected keys/mouse/bytes come out of PollEvent in order exactly as injected".
+func genSimBursts(g *h.Gen, v string) {
+	r := g.R
+	for i, n := 0, g.N(150, 4000); i < n; i++ {
+		cs := simCharsets[i%len(simCharsets)]
+		cd := newCodec(cs)
+		pool := textPool(cd)
+		var ops []string
+		if r.Chance(60) {
+			ops = append(ops, fmt.Sprintf("Z %d %d", r.Range(1, 6), r.Range(1, 3)))
+		}
+		key := func() string {
+			if r.Chance(40) {
+				return fmt.Sprintf("K %d 0 %d", h.Pick(r, []int{int(tcell.KeyUp), int(tcell.KeyF1), int(tcell.KeyEnter), int(tcell.KeyEsc), int(tcell.KeyCtrlA), int(tcell.KeyDelete)}), r.Intn(16))
+			}
+			return fmt.Sprintf("K %d %d %d", int(tcell.KeyRune), h.Pick(r, []int{'a', 'Z', 0xe9, 0x4e16, 0x1f600, ' ', r.Range('!', '~')}), r.Intn(16))
+		}
+		mouse := func() string {
+			return fmt.Sprintf("M %d %d %d %d", r.Range(-1, 90), r.Range(-1, 30), h.Pick(r, []int{0, 1, 2, 4, 256, 512, 3}), r.Intn(16))
+		}
+		text := func(n int) string {
+			var b []byte
+			for q := 0; q < n; q++ {
+				if len(pool) == 0 || r.Chance(30) {
+					b = append(b, byte(r.Range(' ', '~')))
+				} else {
+					out, _ := cd.encode(h.Pick(r, pool))
+					b = append(b, out...)
+				}
+			}
+			return fmt.Sprintf("B %s %s", h.Hex(b), decTable(cd, b))
+		}
+		for rounds := r.Range(1, 2); rounds > 0; rounds-- {
+			for k := r.Intn(3); k > 0; k-- { // some events delivered one by one first
+				ops = append(ops, key())
+			}
+			ops = append(ops, "A")
+			n := h.Pick(r, []int{11, 12, 13, 20, 30, 40, r.Range(9, 40)})
+			switch r.Intn(5) {
+			case 0:
+				for k := 0; k < n; k++ {
+					ops = append(ops, key())
+				}
+			case 1:
+				for k := 0; k < n; k++ {
+					ops = append(ops, mouse())
+				}
+			case 2:
+				ops = append(ops, text(n))
+			case 3:
+				for k := 0; k < n; {
+					switch r.Intn(3) {
+					case 0:
+						ops = append(ops, key())
+						k++
+					case 1:
+						ops = append(ops, mouse())
+						k++
+					default:
+						m := r.Range(1, 6)
+						ops = append(ops, text(m))
+						k += m
+					}
+				}
+			default: // a SetSize behind 10 (9, 11, …) pending events
+				for k := h.Pick(r, []int{10, 10, 9, 11, 15}); k > 0; k-- {
+					ops = append(ops, key())
+				}
+				ops = append(ops, fmt.Sprintf("Z %d %d", r.Range(1, 6), r.Range(1, 3)))
+			}
+			ops = append(ops, "E")
+			if r.Chance(60) {
+				ops = append(ops, "P")
+			}
+			if r.Chance(50) {
+				ops = append(ops, h.Pick(r, []string{"W", "N"}))
+			}
+		}
+		g.Emit("sim cfg %s %s %d=%s; %s", v, cs, ' ', cd.encStr(' '), strings.Join(ops, "; "))
+	}
 }
 
 // genSimDirected: (a) the last column: rounds of [SetStyle] SetContent(w-1, y, wide|narrow, explicit style|StyleDefault)
